@@ -33,7 +33,7 @@ def floors(tier):
 
 
 def run(ctx):
-    sf = env.load_selfies()
+    sf = env.varied(env.load_selfies(), ctx)
     G = env.mods()["grammar_rules"]
     to_sym = getattr(G, "get_selfies_from_index", None)
     to_idx = getattr(G, "get_index_from_selfies", None)
